@@ -2588,7 +2588,7 @@ def cmpxchg(info, a, b):
                                  ExprInt_from(zf, 0),
                                  ExprInt_from(zf, 1))))
     e.append(ExprAff(c, ExprCond(cond,
-                                 b,
+                                 a,
                                  c)
                      ))
     e.append(ExprAff(a, ExprCond(cond,
